@@ -348,7 +348,30 @@ class FlowTable (EventMixin):
       elif e.effective_priority > priority:
         continue
       else:
-        if e.is_matched_by(in_entry.match) or in_entry.is_matched_by(e.match):
+        if _matches_overlap(e.match, in_entry.match):
           return True
 
     return False
+
+
+def _matches_overlap (a, b):
+  """
+  Tests whether a single packet could match both of two ofp_matches
+  """
+  for f in ('in_port', 'dl_vlan', 'dl_src', 'dl_dst', 'dl_type', 'nw_proto',
+            'tp_src', 'tp_dst', 'dl_vlan_pcp', 'nw_tos'):
+    va = getattr(a, f)
+    vb = getattr(b, f)
+    if va is not None and vb is not None and va != vb:
+      return False
+  for getter in ('get_nw_src', 'get_nw_dst'):
+    addr_a,bits_a = getattr(a, getter)()
+    addr_b,bits_b = getattr(b, getter)()
+    if addr_a is None or addr_b is None: continue
+    bits = min(bits_a, bits_b)
+    if bits == 0: continue
+    mask = ~((1 << (32 - bits)) - 1)
+    if ((IPAddr(addr_a).toUnsigned() & mask) !=
+        (IPAddr(addr_b).toUnsigned() & mask)):
+      return False
+  return True
